@@ -12,7 +12,9 @@ import time
 from pathlib import Path
 
 VERIF = Path(__file__).resolve().parent.parent
-OUT = VERIF / "out"
+# VERIF_OUT redirects scratch output AND evidence (runs against scratch trees must not touch the committed evidence)
+OUT = Path(os.environ["VERIF_OUT"]) if os.environ.get("VERIF_OUT") else VERIF / "out"
+EVIDENCE = OUT / "evidence" if os.environ.get("VERIF_OUT") else VERIF / "evidence"
 REPO = Path(os.environ.get("VERIF_REPO", "/repo"))
 GUARD = "A816_VERIF"
 
@@ -143,8 +145,8 @@ class Ctx:
             "wall_s": round(time.time() - self.t0, 2),
             "violations": unlisted,
         }
-        (VERIF / "evidence").mkdir(exist_ok=True)
-        with open(VERIF / "evidence" / f"{self.prop}.json", "w") as fh:
+        EVIDENCE.mkdir(parents=True, exist_ok=True)
+        with open(EVIDENCE / f"{self.prop}.json", "w") as fh:
             json.dump(ev, fh, indent=1, default=str)
         print(f"{self.prop} tier={self.tier} states={self.states} transitions={self.transitions} "
               f"traces={self.traces} evaluations={self.evaluations} nontrivial={cov['distinct_nontrivial']} "
